@@ -98,6 +98,8 @@ pub struct Meta {
     /// produced by `transpose`, a column-major constructor, h_stack or ab, or computed from such a
     /// register (memory layout possibly not row-major on some back ends)
     pub tr: bool,
+    /// built through the native API of the back end (nat_* constructors) and not overwritten since
+    pub nat: bool,
 }
 
 pub struct File<B: Be> {
@@ -208,7 +210,7 @@ impl<B: Be> File<B> {
     pub fn new() -> File<B> {
         File {
             regs: (0..=NREG).map(|_| Reg::E).collect(),
-            meta: vec![Meta { kind: 0, r: 0, c: 0, maxabs: 0.0, tr: false }; NREG + 1],
+            meta: vec![Meta { kind: 0, r: 0, c: 0, maxabs: 0.0, tr: false, nat: false }; NREG + 1],
             skipped: 0,
         }
     }
@@ -234,17 +236,22 @@ impl<B: Be> File<B> {
         let b = self.operand(call.b);
         let atr = call.a >= 1 && call.a <= NREG && self.meta[call.a].tr;
         let btr = call.b >= 1 && call.b <= NREG && self.meta[call.b].tr;
+        let anat = call.a >= 1 && call.a <= NREG && self.meta[call.a].nat;
         let mut e = self.exec_on(run, "Op", call, a, b, None)?;
         e["atr"] = json!(atr);
         e["btr"] = json!(btr);
+        e["anat"] = json!(anat);
         let target = if is_in_place(&call.op) { call.a } else { call.dst };
         if e["status"] == "ok" && (e["kind"] == "m") && target >= 1 && target <= NREG && self.meta[target].kind == 1 {
             // provenance of the memory layout, over-approximated: a register is "tr" when it was made by
             // transpose or the column-major constructor, or computed from such a register
             let fresh = call.a == 0 && call.b == 0;
+            let native = call.op.starts_with("nat_");
+            // clone-based methods keep the (possibly oversized) buffer of their first operand: over-approximated
+            self.meta[target].nat = native || (!fresh && anat);
             // (h_stack: ndarray's concatenate along axis 1 yields a column-major array; ab: the default
             // implementation transposes its result when both flags are set)
-            let source = matches!(call.op.as_str(), "transpose" | "new" | "h_stack" | "ab");
+            let source = native || matches!(call.op.as_str(), "transpose" | "new" | "h_stack" | "ab");
             self.meta[target].tr = source || (!fresh && (atr || btr));
         }
         Some(e)
@@ -252,8 +259,8 @@ impl<B: Be> File<B> {
 
     /// are the index arguments of the call inside the shapes of its operand registers?
     fn in_range(&self, call: &OpCall) -> bool {
-        let ma = if call.a >= 1 && call.a <= NREG { self.meta[call.a] } else { Meta { kind: 0, r: 0, c: 0, maxabs: 0.0, tr: false } };
-        let mb = if call.b >= 1 && call.b <= NREG { self.meta[call.b] } else { Meta { kind: 0, r: 0, c: 0, maxabs: 0.0, tr: false } };
+        let ma = if call.a >= 1 && call.a <= NREG { self.meta[call.a] } else { Meta { kind: 0, r: 0, c: 0, maxabs: 0.0, tr: false, nat: false } };
+        let mb = if call.b >= 1 && call.b <= NREG { self.meta[call.b] } else { Meta { kind: 0, r: 0, c: 0, maxabs: 0.0, tr: false, nat: false } };
         let ia = &call.ia;
         let ok = |x: i64, lim: usize| x >= 1 && (x as usize) <= lim;
         let vecshaped = |m: &Meta| m.kind == 1 && (m.r == 1 || m.c == 1) && m.r >= 1 && m.c >= 1;
@@ -361,20 +368,26 @@ impl<B: Be> File<B> {
 
     fn store(&mut self, target: usize, reg: Reg<B>, kind: u8, r: usize, c: usize, data: &[f64], d: &mut Vec<i64>, flag: &mut bool) {
         if target < 1 || target > NREG {
-            panic!("harness: register operation without a target register");
+            // a call that was expected to be rejected (no destination planned) returned a value: the value
+            // is reported, no register is written
+            match ints(data) {
+                Some(iv) => *d = iv,
+                None => *flag = false,
+            }
+            return;
         }
         match ints(data) {
             Some(iv) => {
                 let maxabs = data.iter().fold(0.0f64, |m, x| m.max(x.abs()));
                 *d = iv;
                 self.regs[target] = reg;
-                self.meta[target] = Meta { kind, r, c, maxabs, tr: false };
+                self.meta[target] = Meta { kind, r, c, maxabs, tr: false, nat: false };
             }
             None => {
                 // a register with a non-integer / non-finite entry is dropped on both sides
                 *flag = false;
                 self.regs[target] = Reg::E;
-                self.meta[target] = Meta { kind: 0, r: 0, c: 0, maxabs: 0.0, tr: false };
+                self.meta[target] = Meta { kind: 0, r: 0, c: 0, maxabs: 0.0, tr: false, nat: false };
             }
         }
     }
@@ -393,7 +406,9 @@ impl<B: Be> File<B> {
         let fv = |v: &Vec<B::T>| -> Vec<f64> { v.iter().map(|&x| f::<B>(x)).collect() };
         match call.op.as_str() {
             // ---------------------------------------------------------------- construction
-            "from_array" | "from_vec" | "from_2d_array" | "from_2d_vec" | "new" => {
+            "from_array" | "from_vec" | "from_2d_array" | "from_2d_vec" | "new" | "nat_row_offset" | "nat_col_offset"
+            | "nat_inplace" | "nat_strided" | "nat_reversed" | "nat_t_owned" | "nat_broadcast" | "nat_remove_row"
+            | "nat_resize" => {
                 Res::M(B::build(&call.op, us(ia(0)), us(ia(1)), &tv::<B>(&call.iv)))
             }
             "row_vector_from_array" | "row_vector_from_vec" => Res::M(B::build(&call.op, 1, call.iv.len(), &tv::<B>(&call.iv))),
